@@ -14,7 +14,7 @@ THOROUGH_SCALE = 3.0   # 16 shards; see DESIGN.md section 7
 
 RULE = (
     "for generated schemas, worlds (values, nulls, nulls in non-null positions, ResolverError and, in a "
-    "third of the cases, unexpected exceptions at arbitrary fields, drawn from a family that also "
+    "half of the cases, unexpected exceptions at arbitrary fields, drawn from a family that also "
     "derives from IndexError, KeyError, AttributeError, TypeError, ...) and valid operations (mutations "
     "forced in 40% of the requests), the same "
     "request is executed under graphql_blocking, the generic Executor on the blocking runtime, the "
@@ -192,13 +192,16 @@ def run(ctx):
     max_exh = 40 if quick else 240
     n_samples = 6 if quick else 24
     for ci in range(ctx.n(7)):
-        p_crash = 0.25 if ci % 3 == 2 else 0.0
+        p_crash = 0.3 if ci % 2 == 1 else 0.0
         case = DualCase(rng, "c08:%d:%d:%d" % (ctx.seed, ctx.shard, ci), p_crash)
         if p_crash:
             # every class of the family gets its turn across cases and shards
             from ..gen.world import DISTINCT_CRASH_CLASSES
 
-            forced = DISTINCT_CRASH_CLASSES[(ctx.shard + ci // 3) % len(DISTINCT_CRASH_CLASSES)]
+            slot = ctx.shard + ci // 2
+            # IndexError / KeyError are what the library's own control flow catches: every other case
+            forced = DISTINCT_CRASH_CLASSES[1 + (slot // 2) % 2] if slot % 2 == 0 else \
+                DISTINCT_CRASH_CLASSES[(slot // 2) % len(DISTINCT_CRASH_CLASSES)]
             case.sync.crash_class = case.asyn.crash_class = forced
             ctx.count("crash_class:" + forced.__name__)
         try:
